@@ -11,7 +11,15 @@ git -C /repo diff > "$wt.hooks.diff"
 (cd /repo && git ls-files --others --exclude-standard | grep 'verif_' ) | while read f; do mkdir -p "$wt/$(dirname "$f")"; cp "/repo/$f" "$wt/$f"; done
 if ! git -C "$wt" apply "$patch"; then echo "seedtest: patch does not apply"; rc=3; else
   (cd "$wt" && GOFLAGS=-mod=mod GOPROXY=off GOSUMDB=off GOTOOLCHAIN=local go build ./... ) || echo "seedtest: patched tree does not build"
-  cd /verif && VERIF_REPO="$wt" ./check "$pid" "$tier"; rc=$?
+  cd /verif && VERIF_REPO="$wt" ./check "$pid" "$tier" > "$wt.out" 2>&1; rc=$?
+  cat "$wt.out"
+  rp=$(sed -n 's/.*replay=\([^ ]*\).*/\1/p' "$wt.out" | head -1)
+  [ -n "$rp" ] && [ -f "$rp" ] && python3 -c "
+import json,sys
+r=json.load(open('$rp'))
+d=(str(r.get('case'))[:300]+' :: '+str(r.get('detail'))[:400]) if r.get('case') else json.dumps(r.get('broken',[])[:2])[:700]
+print('REPLAY: '+d.replace(chr(10),' '))"
+  rm -f "$wt.out"
 fi
-git -C /repo worktree remove --force "$wt"; rm -f "$wt.hooks.diff"; rm -rf /verif/.work/lean__tmp_seedtest_$$ /verif/.work/lock__tmp_seedtest_$$ /verif/.work/go__tmp_seedtest_$$.* /verif/.work/gen__tmp_seedtest_$$
+git -C /repo worktree remove --force "$wt"; rm -f "$wt.hooks.diff"; rm -rf /verif/.work/out__tmp_seedtest_$$ /verif/.work/lean__tmp_seedtest_$$ /verif/.work/lock__tmp_seedtest_$$ /verif/.work/go__tmp_seedtest_$$.* /verif/.work/gen__tmp_seedtest_$$
 exit $rc
